@@ -33,7 +33,10 @@ type Profile struct {
 	MaxAttempt []int32
 	Decoy      bool
 	ProbeOnly  bool // every pull is probe-sized (twin runs)
-	NoTick     bool // no per-statement clock tick (needed when background goroutines use the database)
+	// PublishFaultPct: this share of the publishes runs its first attempt with a
+	// failing statement (the publisher retries after an error)
+	PublishFaultPct int
+	NoTick          bool // no per-statement clock tick (needed when background goroutines use the database)
 }
 
 var attrNames = []string{"a", "b", "kind"}
@@ -362,6 +365,9 @@ func (g *Gen) Step() {
 				key = g.P.Keys[r.Intn(len(g.P.Keys))]
 			}
 			msgs = append(msgs, PubMsg{Data: pickPayload(r, g.P.Rich, g.n*10+i), Attrs: pickAttrs(r, g.P.Rich), Key: key})
+		}
+		if g.P.PublishFaultPct > 0 && r.Intn(100) < g.P.PublishFaultPct {
+			w.PublishFaultAt = 1 + r.Intn(8)
 		}
 		w.Publish(topic, msgs)
 	case "pull":
